@@ -24,6 +24,13 @@ Direct oracle (failing-input search, on the implementation only):
     tokens (computed from the real token list);
   * a corpus with every built-in tag that writes text inside `{% if true %}`:
     suppression on/off may differ only in whitespace;
+  * branch_corpus: the only text of a block tag is in one branch (for/else,
+    elsif, else, when, case else), nested in an otherwise blank block, data
+    selecting that branch: the text must survive suppression;
+  * outcome class: every marker assignment of one program (including the
+    markers of comment/endcomment/raw/endraw tags inside block comments) must
+    lex to the printed tokens - a marker that makes a syntax error or swallows
+    text is a violation;
   * the witness of content-run-split-at-final-newline (fixed by /repo 33ea620)
     is re-observed on every run.
 """
